@@ -37,6 +37,9 @@ def render_value(name, v, style):
         return ['True', 'False'][0 if v else 1] if style % 2 else ('1' if v else '0')
     if isinstance(v, float):
         return repr(v)
+    if isinstance(v, int) and not isinstance(v, bool) and style % 5 == 3:
+        # zero-padded decimal text ('007', '-0100') is still that decimal integer
+        return ('-' if v < 0 else '') + '0' * (1 + style % 3) + str(abs(v))
     return str(v)
 
 
